@@ -223,6 +223,17 @@ def run_job(job):
         r = res["ops"][0]
         evals += 1
         h.update(dumps([k, r["status"], r.get("where"), r["created"], r["modified"]]).encode())
+        if r["status"] == "ok" and r.get("fired_where"):
+            # the injected failure did fire but was swallowed: the call returned as if it had succeeded,
+            # so "when it succeeds the complete file is in place" has to hold
+            nt.add(f"{job['prog']}:{r.get('fired_where')}")
+            if r.get("out_text") != cal.get("out_text") and not any(v["clause"] == "success.incomplete" for v in viols):
+                viols.append({"property": PROP, "clause": "success.incomplete", "seq": k,
+                              "facts": {"k": k, "where": r.get("fired_where"), "swallowed": True},
+                              "msg": f"{job['prog']}: a failure at call {k} ({r.get('fired_where')}) was swallowed - the call "
+                                     f"returned normally but {op['out']} is "
+                                     f"{'missing' if r.get('out_text') is None else 'not the complete file'}"})
+            continue
         if r["status"] != "crash":
             # tracing changes nothing in the call sequence; a run that does not reach call k is a harness problem
             return {"status": "harness_error", "violations": [],
